@@ -109,6 +109,26 @@ def run_shard(args):
                     diffs.append({'ops': c.ops, 'meta': c.meta})
                 else:
                     diffs.append(None)
+            elif getattr(mod, 'PURE_OPS', False) and len(c.ops) > 1 and not diffs:
+                # the ops of these modules are calls of functions that must not depend on what was called before:
+                # evaluate them again in a shuffled and in the reverse order (module-level caches, tables mutated by a call)
+                for order in ('shuffled', 'reversed'):
+                    perm = list(range(len(c.ops)))
+                    if order == 'shuffled':
+                        random.Random(f'{prop}/{seed}/{shard}/{len(diffs)}/{evals}').shuffle(perm)
+                    else:
+                        perm.reverse()
+                    ops2 = [c.ops[i] for i in perm]
+                    try:
+                        got2 = canon_lines(mod, ops2, mod.impl_exec(ops2))
+                    except Infra:
+                        raise
+                    except Exception as e:
+                        got2 = [f'EXC {type(e).__name__}: {e}'] * len(ops2)
+                    evals += len(ops2)
+                    if got2 != [exp[i] for i in perm]:
+                        diffs.append({'ops': ops2, 'meta': dict(c.meta, order=order)})
+                        break
         t_impl = time.time() - t0
         extra_fail = mod.extra_checks(ctx) if hasattr(mod, 'extra_checks') else []
         # several live objects advanced ALTERNATELY (state shared between instances — class attributes, module-level
